@@ -31,10 +31,10 @@ def run(rep, tier):
     from . import common as _common
     _common.guarded(rep, "C14.K1b", c14_k1.k1b, rep, M)
     ix = common.index(rep)
-    c10_2(rep, ix)
-    c10_3(rep, ix)
-    c10_4(rep, ix)
-    c10_5(rep, ix, M)
+    common.guarded(rep, "C10.2", c10_2, rep, ix)
+    common.guarded(rep, "C10.3", c10_3, rep, ix)
+    common.guarded(rep, "C10.4", c10_4, rep, ix)
+    common.guarded(rep, "C10.5", c10_5, rep, ix, M)
 
 
 # -------------------------------------------------------------------------------- helpers
